@@ -146,6 +146,34 @@ func init() {
 				}
 				hist(nil)
 			}
+			// long key histories: hundreds of announcements over many distinct keys, with a root that is written once at the start
+			// and again only after exactly 255 / 256 / 257 / 512 announcements, and returns to keys left long ago (whatever a
+			// converter remembers per key, per root or per generation must still be right then)
+			for hi, nAnn := range []int{255, 256, 257, 512, 40} {
+				if c.quick() && hi == 3 {
+					continue
+				}
+				ring := []string{"C", "G", "D", "A", "E", "B", "F#", "C#", "F", "Bb", "Eb", "Ab", "Db", "Gb", "Cb", "Am", "Em", "Bm", "F#m", "C#m", "G#m", "D#m", "Dm", "Gm", "Cm", "Fm", "Bbm", "Ebm"}
+				if hi%2 == 1 {
+					ring = []string{"G", "D"} // two keys alternating
+				}
+				var sb strings.Builder
+				sb.WriteString("E[1] ")
+				for a := 0; a < nAnn; a++ {
+					k := ring[a%len(ring)]
+					if a == nAnn-1 {
+						k = "D" // (E belongs to D: the last chord of the history is always convertible)
+					}
+					tn, minor := parseKeyName(k)
+					q := ""
+					if minor {
+						q = "m"
+					}
+					sb.WriteString(tn.String() + q + "[1]{key=" + k + "} ")
+				}
+				sb.WriteString("E[1] C[1]{key=C} E[1] G[1]{key=G} E[1]")
+				cases = append(cases, Case{"syltext": sb.String(), "key": "C"})
+			}
 			// long pieces made of one section repeated: a section opens with an explicit key and modulates inside, so every
 			// repetition converts alike -- if the key in force is carried across the whole piece (whatever batch or buffer
 			// boundaries a converter has: 7-chord sections fall differently on every multiple of 1024)
